@@ -18,6 +18,7 @@ type Contract struct {
 	OnStores []*OnStore
 	OnCalls  []*OnCall
 	Decreases map[string][]*Clause // loop key -> measures
+	Exits     map[string][]*Clause // loop key -> assertions at every edge that leaves the loop (header test false, break, goto out)
 	Steps     map[string][]*Clause // loop key -> relations between the values before and after one iteration (prev(x))
 	OnMapDeletes []*OnStore // assertions at delete(m, k) where m was loaded from the named field ($key, $was, $owner)
 	OnMapUpdates []*OnStore // assertions at m[k] = v where m was loaded from the named field ($key, $value, $was, $owner)
